@@ -4,7 +4,7 @@ package props
 
 type Prop struct {
 	ID         string
-	Rules      []string
+	Rules      []string // rule selectors: "RULE" or "RULE@substr1|substr2" (constructs containing one of the substrings)
 	Decided    string   // clauses decided (goes to coverage.explanation)
 	NotDecided string   // what the check does not decide
 	Assume     []string // assumptions / trusted base
@@ -16,19 +16,89 @@ var All = map[string]*Prop{}
 // Pending gives the reason a property is (still) listed under not_applicable.
 var Pending = map[string]string{}
 
-func add(p *Prop) { All[p.ID] = p }
+func add(p *Prop) {
+	p.Assume = append(append([]string{}, commonAssume...), p.Assume...)
+	All[p.ID] = p
+}
 
 var commonAssume = []string{
-	"go/types and go/ssa (x/tools v0.29.0) model the analysed configuration faithfully; the three configurations analysed are amd64, amd64+pure-Go tags, 386",
+	"go/types and go/ssa (x/tools v0.29.0) model the analysed build configuration faithfully (quick: amd64; thorough: amd64, amd64 with the pure-Go build tags, 386)",
 	"nothing in /repo is executed; every verdict is a statement about the source as loaded at run time",
 }
 
+var cdaiAssume = []string{
+	"E4 abstract interpreter: mantissas, lengths and all results of dec-layer functions are unknown (⊤); branches on them fork; opaque callees havoc exactly the fields their store summary says they may write",
+	"pow2(n) is a finite positive value (n is bounded by a binary floating-point exponent); round() on a non-finite value only resets acc (checked by T-ROUND/nonfinite)",
+	"a finite Decimal has a non-empty mantissa (so same()/alias() of one finite Decimal's mantissa with itself are true)",
+}
+
+const techCDAI = "finite-domain abstract interpretation of the SSA form (constant propagation with branch pruning and path forking over enumerated operand classes/modes/digits), compared with IEEE 754 tables written from the standard"
+
 func init() {
+	add(&Prop{ID: "C01",
+		Rules:      []string{"T-ROUND", "T-SETEXP", "T-ARITH@Add(|Sub(|Mul(|Quo(", "T-UNARY@Set(|SetPrec(|Neg(|Abs("},
+		Decided:    "T-ROUND: the rounding decision of round() equals the IEEE 754 direction table for all 6 modes x 2 signs x 10 rounding digits x sticky (argument or mantissa) x parity, with the all-nines carry stepping the exponent or overflowing to Inf; T-SETEXP: exponent underflow -> zero and overflow -> Inf of the result's sign before rounding, sticky bit handed to round; T-ARITH: for every operand class pair and mode the sign is final and the operands are in the right order before the unsigned operation, the receiver's own precision is in force, a zero operand yields the other operand rounded under ITS final sign; T-UNARY: Set/SetPrec/Neg/Abs round exactly when the precision shrinks and with the documented sign.",
+		NotDecided: "that alignment shifts, digit positions, products and quotients are the right numbers (numeric core, not applicable to static analysis)",
+		Assume:     cdaiAssume, Technique: techCDAI,
+	})
+	add(&Prop{ID: "C02",
+		Rules:      []string{"T-ROUND", "T-SETEXP", "T-ARITH@Add(|Sub(|Mul(|Quo(|FMA(", "T-UNARY@Set(|SetPrec(|SetInf(|SetMode(|SetInt|SetUint64(|NewDecimal(|SetMantExp("},
+		Decided:    "accuracy columns of T-ROUND (acc = sign of stored-exact as a function of increment and sign; Exact iff rounding digit = 0 and no sticky) and T-SETEXP (underflow/overflow accuracies); every special-value result of Add/Sub/Mul/Quo/FMA and of the setters is reported Exact; the exact-cancellation branch reports Exact; no rounding happens under a sign that is flipped afterwards.",
+		NotDecided: "that the sticky bit summarises exactly the discarded digits (numeric)",
+		Assume:     cdaiAssume, Technique: techCDAI,
+	})
+	add(&Prop{ID: "C03",
+		Rules:      []string{"T-ARITH@FMA(", "T-ARITH-ALIAS@FMA("},
+		Decided:    "T-ARITH for FMA over {±0, ±finite, ±Inf}^3 x 6 modes x precision orderings: ErrNaN exactly for 0*Inf and Inf-Inf forms, IEEE zero-sum sign including a zero u, the product computed exactly (precision MaxPrec, restored afterwards) and rounded once, sign and operand order of the final unsigned add/sub; T-ARITH-ALIAS: the same table with the receiver bound to x, y, u and operands bound to each other.",
+		NotDecided: "the numeric result for finite operands; whether an intermediate product outside the exponent range is handled exactly",
+		Assume:     cdaiAssume, Technique: techCDAI,
+	})
+	add(&Prop{ID: "C04",
+		Rules:      []string{"T-ARITH", "T-UNARY@Sqrt(", "T-CONV@SetFloat"},
+		Decided:    "T-ARITH: every class combination of Add/Sub/Mul/Quo/FMA in every mode gives the IEEE form and sign or panics with ErrNaN, and nothing else panics with ErrNaN; T-UNARY: Sqrt special values (sqrt(±0)=±0, sqrt(+Inf)=+Inf, negative -> ErrNaN); T-CONV: SetFloat64(NaN) -> ErrNaN, no other class panics.",
+		NotDecided: "absence of run-time panics (index, nil) in the numeric code paths in general; the cell (+0)+(-0) under ToNegativeInf is left unconstrained (the code follows math/big, see DESIGN §5 F15)",
+		Assume:     cdaiAssume, Technique: techCDAI,
+	})
+	add(&Prop{ID: "C05",
+		Rules:      []string{"T-UNARY@Sqrt("},
+		Decided:    "T-UNARY for Sqrt: special values; the receiver's precision and rounding mode are the same after the call as before (also on the finite path, where the root computation is entered with the receiver's precision and mode and a non-negative value).",
+		NotDecided: "that prec+2 working digits and the final multiplication give the correctly rounded root (numeric, not applicable)",
+		Assume:     cdaiAssume, Technique: techCDAI,
+	})
 	add(&Prop{ID: "C07",
 		Rules:      []string{"CONST"},
 		Decided:    "E6-CONST: word-base constants (_DB=10^_DW, _DW, _DWb, _DMax), pow10tab, pow2digitsTab, decMaxPow32/64, pow5tab, the reciprocal constant mP of div10W_g, every pow10DivTab64/32 entry (exact-division criterion proved for every word-sized dividend), layout of struct magic, enumerator equality with math/big.",
 		NotDecided: "instruction-level equivalence of an assembly body and its portable twin (needs symbolic execution of x86 code, a different technique family)",
-		Assume:     commonAssume,
 		Technique:  "constant/table evaluation against mathematical definitions (go/types constants + math/big on source constants)",
+	})
+	add(&Prop{ID: "C10",
+		Rules:      []string{"T-ARITH-ALIAS"},
+		Decided:    "T-ARITH-ALIAS: the dispatch tables of Add/Sub/Mul/Quo/FMA hold under every binding of the receiver to an operand and of operands to each other (z=x, z=y, x=y, z=x=y, z=u, x=u, y=u, all equal), with the receiver's previous form, sign and accuracy unknown.",
+		NotDecided: "stale words in a reused mantissa buffer; field-level read-after-write hazards outside the dispatch code (FX rules, pending)",
+		Assume:     cdaiAssume, Technique: techCDAI,
+	})
+	add(&Prop{ID: "C14",
+		Rules:      []string{"T-CONV@Int64(|Uint64(|Int(|Rat(", "T-UNARY@SetInt|SetUint64(|NewDecimal(|MinPrec(|IsInt("},
+		Decided:    "T-CONV: Int64/Uint64/Int/Rat for ±0, ±Inf and finite values by exponent class give the documented saturation values and accuracies; T-UNARY: SetInt/SetInt64/SetUint64/NewDecimal set sign before rounding, +0 for a zero argument, keep a non-zero precision and choose the documented default otherwise; MinPrec/IsInt special cases.",
+		NotDecided: "exactness of the radix conversions and of SetInt's precision estimate (numeric)",
+		Assume:     cdaiAssume, Technique: techCDAI,
+	})
+	add(&Prop{ID: "C15",
+		Rules:      []string{"T-CONV@SetFloat"},
+		Decided:    "T-CONV: SetFloat64 and SetFloat dispatch on the ARGUMENT's class: NaN -> ErrNaN, ±0 and ±Inf map to themselves with the argument's sign and Exact accuracy, a finite value enters the scaling arithmetic with the argument's sign and is rounded last with the receiver's precision.",
+		NotDecided: "nearest/faithful rounding of the conversions, double rounding in Float32/Float64 (numeric, not applicable)",
+		Assume:     cdaiAssume, Technique: techCDAI,
+	})
+	add(&Prop{ID: "C16",
+		Rules:      []string{"T-CMP"},
+		Decided:    "T-CMP: Cmp over all 36 class pairs x the three possible results of ucmp: classes ordered -Inf < -finite < ±0 < +finite < +Inf, equal-sign finite values compared by exactly one ucmp in the right operand order, independent of precision/mode/accuracy of the operands; Sign, IsZero, IsInf, Signbit agree with the classification.",
+		NotDecided: "that ucmp's zero-padding loop compares the right words (loop arithmetic)",
+		Assume:     cdaiAssume, Technique: techCDAI,
+	})
+	add(&Prop{ID: "C20",
+		Rules:      []string{"T-UNARY@MantExp(|SetMantExp("},
+		Decided:    "T-UNARY: MantExp returns 0 and copies form/sign for ±0/±Inf, returns x's exponent and leaves mant with exponent 0 otherwise (also for mant nil and mant = x); SetMantExp copies zeros/infinities without scaling and enters setExpAndRound with exponent(mant)+exp and the sign already set, also for z = mant.",
+		NotDecided: "the exponent-correction arithmetic of SetBitsExp/BitsExp (numeric); PREC0/EXP/MUSTFLOW rules pending",
+		Assume:     cdaiAssume, Technique: techCDAI,
 	})
 }
